@@ -1,0 +1,34 @@
+//go:build verif
+
+package jobs
+
+import "reduction.dev/reduction/storage/snapshots"
+
+// Accessors for the verification harness (build tag verif only).
+
+// VerifSyncC15 returns after every task enqueued before it has run (the task queue is serial).
+func (j *Job) VerifSyncC15() {
+	done := make(chan struct{})
+	j.taskQueue <- func() error {
+		close(done)
+		return nil
+	}
+	<-done
+}
+
+func (j *Job) VerifStatusC15() string { return j.status.String() }
+
+func (j *Job) VerifStoreC15() *snapshots.Store { return j.snapshotStore }
+
+// VerifAssemblyC15 must only be called while no task is running (after VerifSyncC15).
+func (j *Job) VerifAssemblyC15() (operatorIDs, sourceRunnerIDs []string) {
+	if j.assembly == nil {
+		return nil, nil
+	}
+	return j.assembly.OperatorIDs(), j.assembly.SourceRunnerIDs()
+}
+
+// VerifRegistryC15 must only be called while no task is running (after VerifSyncC15).
+func (j *Job) VerifRegistryC15() (operatorIDs, sourceRunnerIDs []string) {
+	return j.registry.operators.Keys(), j.registry.runners.Keys()
+}
